@@ -78,11 +78,44 @@ package mustache
 //
 // ---- setting a template (C03) -------------------------------------------------------------------------------------
 // whatever the default variables were set to (also to nil: the map is then allocated here)
+// "the default collection ends up with [an] entry per such name compared case-insensitively, keeping entries and values that were
+// already there"
+//@ spec hasName(m map[string]string, n string) bool = exists k string :: haskey(m, k) && lower(k) == lower(n)
 //@ func (c *MustacheTemplate) CreateVariables
-//@   tags C03
-//@   requires c != nil && c.parser != nil
+//@   tags C03, C18
+//@   requires c != nil && c.parser != nil && (forall j int :: 0 <= j && j < len(c.parser.variableNames) ==> c.parser.variableNames[j] != "")
+//@   ensures[C18] variables != nil ==> deref(variables) != nil && (forall j int :: 0 <= j && j < len(c.parser.variableNames) ==>
+//@       hasName(deref(variables), c.parser.variableNames[j]))
+//@   ensures[C18] variables != nil && old(deref(variables)) != nil ==> deref(variables) == old(deref(variables)) &&
+//@       (forall k string :: old(haskey(deref(variables), k)) ==> haskey(deref(variables), k) && mapval(deref(variables), k) == old(mapval(deref(variables), k)))
+// (a map cannot be named in a frame clause: what the callers need unchanged is stated instead)
+//@   ensures[C18] c.parser == old(c.parser) && c.autoVariables == old(c.autoVariables) && c.parser.tokenizer == old(c.parser.tokenizer) &&
+//@       c.parser.variableNames == old(c.parser.variableNames) && elems(c.parser.variableNames) == old(elems(c.parser.variableNames))
 //@   nopanic
 //@   loop 0
 //@     invariant -1 <= rangeindex && rangeindex < len(c.parser.variableNames) && variables != nil && deref(variables) != nil
 //@     invariant c.parser == old(c.parser) && c.parser.variableNames == old(c.parser.variableNames)
+//@     invariant old(deref(variables)) != nil ==> deref(variables) == old(deref(variables))
+//@     invariant forall j int :: 0 <= j && j <= rangeindex ==> hasName(deref(variables), c.parser.variableNames[j])
+//@     invariant old(deref(variables)) != nil ==> (forall k string :: old(haskey(deref(variables), k)) ==> haskey(deref(variables), k) && mapval(deref(variables), k) == old(mapval(deref(variables), k)))
 //@     decreases len(c.parser.variableNames) - rangeindex
+
+// setting a template: never a panic; with automatic variables on, every name of the template has an entry in the default map
+// afterwards (compared case-insensitively), and the entries that were there keep their values
+//@ func (c *MustacheTemplate) SetTemplate
+//@   tags C03, C18
+//@   requires c != nil && c.parser != nil && c.parser.tokenizer != nil
+//@   ensures[C18] result == nil && c.autoVariables ==> c.defaultVariables != nil && (forall j int :: 0 <= j && j < len(c.parser.variableNames) ==>
+//@       hasName(c.defaultVariables, c.parser.variableNames[j]))
+//@   ensures[C18] old(c.defaultVariables) != nil ==> c.defaultVariables == old(c.defaultVariables) &&
+//@       (forall k string :: old(haskey(c.defaultVariables, k)) ==> haskey(c.defaultVariables, k) && mapval(c.defaultVariables, k) == old(mapval(c.defaultVariables, k)))
+//@   ensures[C03] c.parser == old(c.parser) && c.parser.tokenizer == old(c.parser.tokenizer) && c.autoVariables == old(c.autoVariables)
+//@   nopanic
+//@ func (c *MustacheTemplate) SetOriginalTokens
+//@   tags C03, C18
+//@   requires c != nil && c.parser != nil && (forall i int :: 0 <= i && i < len(value) ==> value[i] != nil && allocated(value[i]))
+//@   ensures[C18] result == nil && c.autoVariables ==> c.defaultVariables != nil && (forall j int :: 0 <= j && j < len(c.parser.variableNames) ==>
+//@       hasName(c.defaultVariables, c.parser.variableNames[j]))
+//@   ensures[C18] old(c.defaultVariables) != nil ==> c.defaultVariables == old(c.defaultVariables) &&
+//@       (forall k string :: old(haskey(c.defaultVariables, k)) ==> haskey(c.defaultVariables, k) && mapval(c.defaultVariables, k) == old(mapval(c.defaultVariables, k)))
+//@   nopanic
